@@ -72,7 +72,8 @@ def jobs(tier, seed):
         add(solver, test, 2, 2, 2, "9/10", pat="half")
         add(solver, test, 3, 2, 1, "9/10", bs=2, cost=3)
         if tier == "thorough":
-            add(solver, test, 2, 2, 2, "sym", pat="skew")
+            if solver == "vi":   # (pi / savi with symbolic gamma and two events: single jobs ran > 15 min, outside)
+                add(solver, test, 2, 2, 2, "sym", pat="skew")
             add(solver, test, 2, 2, 2, "1/2", pat="zero")
             add(solver, test, 3, 2, 1, "1/2", bs=3, cost=3)
             add(solver, test, 3, 2, 2, "9/10", pat="skew", sample=600, cost=1e-3)
@@ -89,7 +90,7 @@ def jobs(tier, seed):
                 add("savi", "max_diff", 3, 2, 1, "9/10", bs=bs, dv=dv, cost=3)
         for sd in (0, 42):
             add("savi", "max_diff", 3, 2, 1, "9/10", bs=2, shuffle=sd, cost=3)
-        add("pi", "span", 2, 4, 1, "sym", da=2, sample=120)
+        add("pi", "span", 2, 4, 1, "1/2", da=2, sample=120)
         add("pi", "max_diff", 2, 4, 1, "9/10", da=2, sample=120)
     return out
 
